@@ -173,4 +173,83 @@ theorem C19_kernel_funcfl (dr e sep : Rat) (nr : Nat) (el : El) (nrho : Nat) (dr
   · kernel_unfold [k_funcfl_rphi, k_funcfl_charge]
     kernel_close
 
+/-! ## The code itself: the GULP writer regenerated from the source
+
+`Atsim.Gen.Logic.gulp_write / gulp_write_pot / r_value_iterator` are `GULP_PairTabulation.write / _write_pot` and `_r_value_iterator` as produced by
+`translator/py2lean_logic.py` on every run.  `C19_code_gulp_writer`: for every tabulation (any potentials, cutoff, row count) and prior stream content the code
+appends exactly the model's `gulpTable`: per potential `spline cubic`, the header `speciesA speciesB cutoff` with the cutoff as given, then `nr` rows
+`energy separation` at `n * cutoff / (nr - 1)`, `n = 0 .. nr-1`, in `{:.10f}` format. -/
+namespace GulpWriter
+open Atsim.Gen.Logic
+
+def toRec (p : Pot) : PotRec := ⟨p.a, p.b, p.fid⟩
+
+def slotOV : Slot → OV
+  | .val fid x => .fn "energy" fid x
+  | .zero => .num 0
+
+def renderBlock (b : GBlock) : List Tok :=
+  [⟨"spline cubic\n", []⟩, ⟨"{} {} {}\n", [.str b.a, .str b.b, .num b.cutoff]⟩] ++ b.rows.map (fun row => ⟨"{:.10f} {:.10f}\n", [slotOV row.1, .num row.2]⟩)
+
+end GulpWriter
+
+namespace GulpWriter
+open Atsim.Gen.Logic
+
+theorem r_loop_eq (tab : TabRec) (l : List Int) (acc : List Rat) :
+    r_value_iterator_loop1 acc tab l
+      = acc ++ l.map (fun n => ((n : Int) : Rat) * tab.cutoff / (((tab.nr : Int) : Rat) - 1)) := by
+  induction l generalizing acc with
+  | nil => simp [r_value_iterator_loop1]
+  | cons x rest ih =>
+    simp only [r_value_iterator_loop1, ih, List.map_cons, List.append_assoc, List.singleton_append]
+
+theorem r_values_eq (pots : List PotRec) (cut : Rat) (nr : Nat) :
+    r_value_iterator ⟨(nr : Int), cut, pots⟩ = (List.range nr).map (fun n => rValue cut nr n) := by
+  simp only [r_value_iterator, r_loop_eq, intRange, List.nil_append, List.map_map, sub_zero, Int.toNat_natCast]
+  apply List.map_congr_left
+  intro n _
+  simp only [Function.comp, rValue]
+  push_cast
+  ring
+
+theorem pot_loop_eq (pot : PotRec) (self : TabRec) (l : List Rat) (fp : List Tok) :
+    gulp_write_pot_loop1 fp pot self l
+      = fp ++ l.map (fun r => (⟨"{:.10f} {:.10f}\n", [energyOf pot r, .num r]⟩ : Tok)) := by
+  induction l generalizing fp with
+  | nil => simp [gulp_write_pot_loop1]
+  | cons x rest ih =>
+    simp only [gulp_write_pot_loop1, ih, List.map_cons, List.append_assoc, List.singleton_append]
+
+theorem write_pot_eq (p : Pot) (pots : List PotRec) (cut : Rat) (nr : Nat) (fp : List Tok) :
+    gulp_write_pot ⟨(nr : Int), cut, pots⟩ (toRec p) fp
+      = fp ++ renderBlock (⟨p.a, p.b, cut,
+          (List.range nr).map (fun n => (Slot.val p.fid (rValue cut nr n), rValue cut nr n))⟩ : GBlock) := by
+  simp only [gulp_write_pot, pot_loop_eq, r_values_eq, renderBlock, toRec, energyOf, slotOV, List.map_map,
+    List.append_assoc, List.singleton_append, List.cons_append, List.nil_append, Function.comp_def]
+
+theorem write_loop_eq (pots : List PotRec) (cut : Rat) (nr : Nat) (l : List Pot) (fp sb : List Tok) :
+    gulp_write_loop1 fp sb ⟨(nr : Int), cut, pots⟩ (l.map toRec)
+      = fp ++ sb ++ (gulpTable l cut nr).flatMap renderBlock := by
+  induction l generalizing sb with
+  | nil => simp [gulp_write_loop1, gulpTable]
+  | cons x rest ih =>
+    simp only [List.map_cons, gulp_write_loop1, write_pot_eq, ih]
+    simp [gulpTable, List.flatMap_cons, List.append_assoc]
+
+end GulpWriter
+
+open Atsim.Gen.Logic in
+/-- **code tie**: the grid iterator yields `n * cutoff / (nr - 1)` for `n = 0 .. nr-1` -/
+theorem C19_code_r_values (pots : List PotRec) (cut : Rat) (nr : Nat) :
+    r_value_iterator ⟨(nr : Int), cut, pots⟩ = (List.range nr).map (fun n => rValue cut nr n) :=
+  GulpWriter.r_values_eq pots cut nr
+
+open Atsim.Gen.Logic in
+/-- **code tie (whole table)** -/
+theorem C19_code_gulp_writer (pots : List Pot) (cut : Rat) (nr : Nat) (out : List Tok) :
+    gulp_write ⟨(nr : Int), cut, pots.map GulpWriter.toRec⟩ out = out ++ (gulpTable pots cut nr).flatMap GulpWriter.renderBlock := by
+  simp only [gulp_write, GulpWriter.write_loop_eq, List.append_nil]
+
+
 end Atsim.C19
